@@ -17,7 +17,7 @@ META = {
                    "same obligation replayed on the real pydantic / numpy confirms it.",
     "bounds": {"quick": "n<=3 agents (pooled: all completion orders), P<=8 groups, 2 cycles; class_step: population 5, "
                         "2 cycles, 45 s per class",
-               "thorough": "n<=4 agents, 3 cycles; class_step: populations 5, 8, 12, 240 s per class"},
+               "thorough": "n<=4 agents, 3 cycles; class_step: populations 5 and 8, 120 s per class"},
     "outside": "list surgery inside the 84 update rules (H7) beyond what class_step reaches: class_step is refutation-only "
                "(inconclusive wherever symbolic floats meet numpy mathematics; integer configuration fields and the task "
                "stay at the test-suite values); the three variable-size optimizers (Bee Colony, Forest, "
@@ -249,8 +249,8 @@ def obligations(tier):
     for cname in optimizer_classes():
         if cname in VARIABLE_SIZE:
             continue
-        for pop in (5, 8, 12) if th else (5,):
-            obs.append(Ob(f"class_step[{cname},pop={pop}]", ob_class_step(cname, pop), 240 if th else 45, group="class_step",
+        for pop in (5, 8) if th else (5,):
+            obs.append(Ob(f"class_step[{cname},pop={pop}]", ob_class_step(cname, pop), 120 if th else 45, group="class_step",
                           refutation_only=True, api_replay_decides=True, tolerate_errors=True))
     obs.append(Ob("twin_vacuity", twin(), 30, expect_refuted=True))
     return obs
